@@ -346,6 +346,25 @@ def end_to_end(ctx, thorough):
             ctx.extra.setdefault("end_to_end", {})[proto] = {"datagrams": len(data) + len(tpls), "udpcount": st["UDPCount"] - base["UDPCount"],
                                                              "decoded": dec + (len(tpls)), "published": len(lines), "expected_published": npub}
         ctx.traces_validated += 1
+        # a UDP datagram without payload is a datagram: received, hence counted once (one at a time, after a one-octet control;
+        # three tries so that a drop on the way cannot be mistaken for the collector's doing)
+        import time as _t
+        for proto in c12.PROTOS:
+            name = e2e.KEY[proto]
+            b0 = col.stats()[name]["UDPCount"]
+            senders.send(srcs[0], col.ports[proto], [7])
+            if not e2e.wait_until(lambda: col.stats()[name]["UDPCount"] >= b0 + 1, timeout=5):
+                raise vlib.Infra("%s: the one-octet control datagram was not counted" % proto)
+            counted = 0
+            for k in range(3):
+                b1 = col.stats()[name]["UDPCount"]
+                senders.send(srcs[0], col.ports[proto], [])
+                if e2e.wait_until(lambda: col.stats()[name]["UDPCount"] >= b1 + 1, timeout=2):
+                    counted += 1
+            ctx.count([proto, "empty-datagram", ctx.seed])
+            if counted == 0:
+                ctx.violation("%s end to end: three UDP datagrams without payload were sent one at a time (a one-octet datagram before them was "
+                              "counted): UDPCount did not move" % proto, {"proto": proto}, key=proto + ":e2e-empty-datagram")
         ctx.sample({"end_to_end": ctx.extra.get("end_to_end")})
         rc, secs = col.stop()
         if rc != 0:
